@@ -87,9 +87,22 @@ func (k *imgChecker) checkBlock(b *chaingen.Block, wantSDL bool) {
 	num := b.B.Number
 	if raw, err := bc.TransactionsByBlockNumber(num); err == nil && len(raw) == 0 && len(b.B.Transactions) > 0 {
 		k.evals++
-		k.fail("data_lost", "block_transactions_emptied", "block %d had %d transactions before the upgrade; TransactionsByBlockNumber now returns an empty list (header TransactionCount=%d)", num, len(b.B.Transactions), b.B.TransactionCount)
+		k.fail("migrated_block_emptied", "transactions_emptied", "block %d had %d transactions before the upgrade; TransactionsByBlockNumber now returns an empty list (header TransactionCount=%d)", num, len(b.B.Transactions), b.B.TransactionCount)
 	}
 	blk, err := bc.BlockByNumber(num)
+	if err != nil && isNotFound(err) {
+		// refine the key: which record is missing
+		if _, herr := bc.BlockHeaderByNumber(num); herr == nil {
+			if has, _ := core.BlockTransactionsBucket.Has(k.img, num); !has {
+				k.evals++
+				kind := "block_with_transactions"
+				if len(b.B.Transactions) == 0 {
+					kind = "empty_block"
+				}
+				k.fail("block_unreadable", "no_combined_entry_"+kind, "BlockByNumber(%d) fails with %v: the block (%d transactions) has a header but no entry in the combined transactions bucket", num, err, len(b.B.Transactions))
+			}
+		}
+	}
 	k.eq("BlockByNumber", b.B, blk, err)
 	blk, err = bc.BlockByHash(b.B.Hash)
 	k.eq("BlockByHash", b.B, blk, err)
